@@ -191,6 +191,22 @@ theorem unique_rows_by_indexer :
     (CV.Gen.unique.filter fun r => rowIndexer r.2 == .keyValue).length = 23 ∧
     CV.Gen.unique.length = 30 := by decide
 
+/-- the to-sequence rows that have **no** row in `unique`: there the two lists are appended and a repeated entry stays
+twice (`build.ssh`, `label_file`); for every other to-sequence row "later wins per key" applies (`kv_later_wins`) -/
+theorem toSeq_rows_without_indexer :
+    ((CV.Gen.mergeSpecials.filter fun r => rowRule r.2 == .toSeq).map Prod.fst).filter
+        (fun pat => !(CV.Gen.unique.map Prod.fst).contains pat) =
+      [["services", "*", "build", "ssh"], ["services", "*", "label_file"]] := by decide
+
+/-- the `unique` rows without a custom merger: default append followed by unicity (`keyed_list_later_wins`) -/
+theorem keyed_rows_by_default_append :
+    (CV.Gen.unique.map Prod.fst).filter (fun pat => !(CV.Gen.mergeSpecials.map Prod.fst).contains pat) =
+      [["networks", "*", "ipam", "options"], ["services", "*", "build", "platform"], ["services", "*", "build", "tags"],
+       ["services", "*", "cap_add"], ["services", "*", "cap_drop"], ["services", "*", "configs"], ["services", "*", "expose"],
+       ["services", "*", "links"], ["services", "*", "networks", "*", "aliases"],
+       ["services", "*", "networks", "*", "link_local_ips"], ["services", "*", "ports"], ["services", "*", "profiles"],
+       ["services", "*", "secrets"], ["services", "*", "volumes"], ["services", "*", "devices"]] := by decide
+
 /-! ### index keys of the indexers that had no theorem yet -/
 
 /-- short-syntax secret / config `name`: the key is `<default dir>/name` -/
